@@ -74,6 +74,22 @@ def gen_file(rng, tag, local):
         else:
             text = "int %s(int a, double b = 1.0);" % name
         add_member(vis_name, text, Ent("method", "%s::%s" % (cname, name), attrs, cname))
+    has_region = rng.random() < 0.4
+    if has_region:
+        # a publish region inside a non-public section: what follows the region is as non-public as what preceded it
+        sec = rng.choice(["private", "protected"])
+        add_member(sec, "int before_%s();\n  __begin_publish\n  int inregion_%s();\n  __end_publish\n  int after_%s(int a);\n  int after2_%s;" % ((tag.lower(),) * 4), None)
+        any_member_vis.append(0)
+        ents.append(Ent("method", "%s::before_%s" % (cname, tag.lower()), {"vis": VIS[sec], "local": local}, cname))
+        ents.append(Ent("method", "%s::inregion_%s" % (cname, tag.lower()), {"vis": 0, "local": local}, cname))
+        ents.append(Ent("method", "%s::after_%s" % (cname, tag.lower()), {"vis": VIS[sec], "local": local}, cname))
+        ents.append(Ent("element", "%s::after2_%s" % (cname, tag.lower()), {"vis": VIS[sec], "local": local, "global": False}, cname))
+    # methods whose signatures involve a type a command file may ask to ignore, directly and through typedefs
+    for k, sig in enumerate(["Res%s *r" % tag, "ResPtr%s p" % tag, "ResPtr2%s p" % tag, "ResAlias%s *a" % tag, "const ResPtr%s &p" % tag, "ResCPtr%s p" % tag]):
+        if rng.random() < 0.4:
+            vis_name = rng.choice(["__published", "__published", "public"])
+            name = "res%s%d" % (tag.lower(), k)
+            add_member(vis_name, "int %s(%s);" % (name, sig), Ent("method", "%s::%s" % (cname, name), {"vis": VIS[vis_name], "local": local, "res": True}, cname))
     for k in range(rng.randrange(0, 3)):
         vis_name = rng.choice(["__published", "public", "private"])
         name = "f%s%d" % (tag.lower(), k)
@@ -89,7 +105,9 @@ def gen_file(rng, tag, local):
     rng.shuffle(members)
     # a class needs its protected helper types declared before use
     members.sort(key=lambda m: 0 if m[1].startswith("class ") else 1 if m[1].startswith("typedef ProtT") else 2 if m[1].startswith("typedef ") else 3)
-    cls_published = rng.random() < 0.25
+    cls_published = rng.random() < 0.25 and not has_region      # (publish regions do not nest)
+    t += ("class Res%(t)s {\n__published:\n  int rv();\n};\ntypedef Res%(t)s *ResPtr%(t)s;\ntypedef ResPtr%(t)s ResPtr2%(t)s;\ntypedef Res%(t)s ResAlias%(t)s;\n"
+          "typedef const Res%(t)s *ResCPtr%(t)s;\n") % {"t": tag}
     body = "class %s {\n" % cname
     for vis_name, text in members:
         body += "%s:\n  %s\n" % (vis_name, text)
@@ -174,6 +192,12 @@ def gen_layout(rng):
             cmds.append("ignorefile cwdinc.h")
             for e in by_file["cwdinc.h"]:
                 e.attrs["local"] = False          # `_source != S_local || in_ignorefile(...)` is one guard
+        if rng.random() < 0.4:
+            rt = rng.choice(["ResMain", "ResSub"])
+            cmds.append("ignoreinvolved " + rt)
+            for e in ents:
+                if e.attrs.get("res") and e.cls == rt[3:] + "C":
+                    e.attrs["ignoreinvolved"] = True
         if rng.random() < 0.5:
             cls = rng.choice(["MainC", "SubC", "SubC"])       # SubC: a type of the *later* header named in the earlier header's command file
             cmds.append("ignoretype " + cls)
